@@ -632,7 +632,62 @@ def r04_11(chk):
     chk.floor("R04.11", 2, "old- and new-type merged_db_collection")
 
 
+def r04_12(chk):
+    chk.rule("R04.12", "the union of features covers every member: FeatureMap.covered() (behind Feature.union and with_masked_annotations) is either a depth-counting sweep (+1 at every span start, -1 at every span end) or, when it merges start-sorted intervals, extends the current interval to the MAXIMUM of the two ends -- taking the later span's end loses the tail of a span that contains the next one (gene (4,24) with a repeat (8,13) inside it would merge to (4,13))")
+    m = chk.repo.module("core/location.py")
+    q = "FeatureMap.covered"
+    fn = m.func(q)
+    k = key(m, q, "merged extent is the union")
+    plus = any(isinstance(st, ast.Assign) and isinstance(st.value, ast.BinOp) and isinstance(st.value.op, ast.Add) and isinstance(st.value.right, ast.Constant) and st.value.right.value == 1 and "start" in norm(st.targets[0]) for st in walk_no_nested(fn))
+    minus = any(isinstance(st, ast.Assign) and isinstance(st.value, ast.BinOp) and isinstance(st.value.op, ast.Sub) and isinstance(st.value.right, ast.Constant) and st.value.right.value == 1 and "end" in norm(st.targets[0]) for st in walk_no_nested(fn))
+    merges = [st for st in walk_no_nested(fn) if isinstance(st, ast.Assign) and isinstance(st.targets[0], ast.Subscript) and isinstance(st.targets[0].slice, ast.UnaryOp) and norm(st.targets[0].slice) == "-1"]
+    if plus and minus and not merges:
+        chk.ok("R04.12", k, m.loc(fn), "depth-counting sweep: +1 at starts, -1 at ends")
+    elif merges:
+        bad = None
+        for st in merges:
+            v = st.value
+            last = v.elts[-1] if isinstance(v, ast.Tuple) and v.elts else v
+            if not (isinstance(last, ast.Call) and norm(last.func) in ("max", "numpy.maximum")):
+                bad = st
+        chk.decide(bad is None, "R04.12", k, m.loc(bad if bad is not None else merges[0]), "merged end is max(...) of the two ends", f"`{norm(bad)[:70] if bad is not None else ''}` replaces the end of the current interval by the next span's end: a span nested in the current one shortens it (gene (4,24) + repeat (8,13) -> (4,13)), so union()/masking leave part of the gene out")
+    else:
+        chk.unresolved("R04.12", k, m.loc(fn), "neither a depth-counting sweep nor a sort-and-merge loop was recognised")
+    chk.floor("R04.12", 1, "covered()")
+
+
+def r04_13(chk):
+    chk.rule("R04.13", "two sites agree on when a feature slice may keep its annotation db: Feature._do_seq_slice drops the db only for a map of more than one span, so Aligned.__getitem__[FeatureMap] builds coordinate-less data (joined_segments / gapped_by_map: a fresh sequence starting at 0 on the plus strand) only on the branch that excludes the single-span case; the single-span branch slices self.data, which keeps parent coordinates and strand -- otherwise the re-attached db is queried with coordinates that no longer mean anything (a nested exon reads TTA instead of GGT)")
+    from .c09 import _enclosing_tests
+
+    am = chk.repo.module("core/annotation.py")
+    ds = am.func("Feature._do_seq_slice")
+    drops_multi_only = any(isinstance(i, ast.If) and "num_spans > 1" in norm(i.test) and any(isinstance(st, ast.Assign) and "annotation_db" in norm(st.targets[0]) and isinstance(st.value, ast.Constant) and st.value.value is None for st in i.body) for i in walk_no_nested(ds))
+    m = chk.repo.module("core/alignment.py")
+    fns = [f for f in ast.walk(m.cls("Aligned").node) if isinstance(f, ast.FunctionDef) and f.name == "_" and any("__getitem__.register" in norm(d) for d in f.decorator_list) and f.args.args[1:] and f.args.args[1].annotation is not None and "FeatureMap" in norm(f.args.args[1].annotation)]
+    if not fns:
+        raise AnalysisError("Aligned.__getitem__[FeatureMap] not found")
+    fn = fns[0]
+    joins = [st for st in walk_no_nested(fn) if isinstance(st, ast.Assign) and any(isinstance(c, ast.Call) and isinstance(c.func, ast.Attribute) and c.func.attr in ("joined_segments", "gapped_by_map") for c in ast.walk(st.value))]
+    k = key(m, "Aligned.__getitem__[FeatureMap]", "joined data only for more than one span")
+    if not joins:
+        chk.ok("R04.13", k, m.loc(fn), "no coordinate-less construction", nontrivial=False)
+    elif not drops_multi_only:
+        chk.ok("R04.13", k, m.loc(fn), "Feature._do_seq_slice no longer keeps the db for single-span maps only", nontrivial=False)
+    else:
+        bad = None
+        for st in joins:
+            tests = _enclosing_tests(fn, st)
+            single_excluded = any(t.startswith("not (") and "== 1" in t and "spans" in t for t in tests) or any((not t.startswith("not (")) and ("> 1" in t or ">= 2" in t) and "spans" in t for t in tests)
+            if not single_excluded:
+                bad = (st, tests)
+        chk.decide(bad is None, "R04.13", k, m.loc(bad[0] if bad else joins[0]), "the join path excludes single-span maps", f"`{norm(bad[0])[:60] if bad else ''}` is reached under {bad[1] if bad else ''}, i.e. also for a single-span map: the data loses parent coordinates and strand while Feature._do_seq_slice keeps the annotation db for it, so get_features() on aln[gene] returns the wrong residues")
+    chk.floor("R04.13", 1, "Aligned.__getitem__[FeatureMap]")
+
+
 def run(chk):
+    r04_13(chk)
+    r04_12(chk)
     r04_11(chk)
     r04_10(chk)
     r04_9(chk)
